@@ -72,6 +72,9 @@ cfg("MC_faults_abstract.cfg", fault_consts(FieldAlpha="<- AlphaAbstractF", Alias
 cfg("MC_faults_pairs.cfg", fault_consts(FieldAlpha="<- AlphaPairs", Aliases='= {"", "z"}', MaxFaults="= 2", MaxSel="= 3"), FAULT_INV, spec="SpecF")
 cfg("MC_faults_mut.cfg", fault_consts(FieldAlpha="<- AlphaMutF", OpTypes='= {"mutation"}', Aliases='= {""}', MaxFaults="= 2", MaxSel="= 3"), FAULT_INV, spec="SpecF")
 cfg("MC_faults_args.cfg", fault_consts(FieldAlpha="<- AlphaArgsF", ArgOpts="<- ArgOptsFail", Aliases='= {"", "z"}', MaxFaults="= 1", MaxSel="= 3"), FAULT_INV, spec="SpecF")
+cfg("MC_faults_cs.cfg", fault_consts(FieldAlpha="<- AlphaCs", Aliases='= {""}', MaxFaults="= 1", MaxSel="= 3"), FAULT_INV, spec="SpecF")
+cfg("MC_faults_csm.cfg", fault_consts(FieldAlpha="<- AlphaCsM", OpTypes='= {"mutation"}', Aliases='= {""}', MaxFaults="= 1", MaxSel="= 3"), FAULT_INV, spec="SpecF")
+cfg("MC_exec_cs.cfg", exec_consts(FieldAlpha="<- AlphaCs", Aliases='= {""}', MaxSel="= 3"), EXEC_INV)
 cfg("MC_faults_s2.cfg", fault_consts(FieldAlpha="<- AlphaS2", Aliases='= {""}', Conds='= {"", "Leaf"}', MaxFaults="= 1", MaxSel="= 3", **S2), FAULT_INV, spec="SpecF")
 cfg("MC_faults_s2g.cfg", fault_consts(FieldAlpha="<- AlphaS2G", Aliases='= {""}', MaxFaults="= 2", MaxSel="= 2", **S2), FAULT_INV, spec="SpecF")
 cfg("MC_faults_layout3.cfg", fault_consts(FieldAlpha="<- AlphaLayout", Aliases='= {""}', MaxFaults="= 2", MaxSel="= 3"), FAULT_INV, spec="SpecF")
@@ -102,6 +105,9 @@ for fk in ("cc", "ms"):
 # merged sub-selections that differ per runtime type (type-conditioned fragment under a list of an interface)
 for fk in ("cc", "ss"):
     cfg("MC_sched_p_%s.cfg" % fk, sched_consts(FieldAlpha="<- AlphaSchedP", Aliases='= {""}', Conds='= {"A"}', MaxSel="= 6", MaxDepth="= 4", WithFaults="= FALSE", **FLAGSETS[fk]), SCHED_INV, spec="SpecS")
+# a non-null mutation root whose value the scalar's own output coercion turns into null
+for fk in ("cc", "ss"):
+    cfg("MC_sched_mcs_%s.cfg" % fk, sched_consts(FieldAlpha="<- AlphaCsM", OpTypes='= {"mutation"}', Aliases='= {""}', MaxSel="= 3", WithFaults="= TRUE", **FLAGSETS[fk]), SCHED_INV, spec="SpecS")
 cfg("MC_sched_live.cfg", sched_consts(FieldAlpha="<- AlphaSchedF", Aliases='= {""}', MaxSel="= 3", WithFaults="= TRUE", SeqFields="<- SomeFieldNames", LConc="= FALSE"), SCHED_R1, spec="FairSpecS", props=["Termination"], extra="VIEW NoHist")
 
 # ---- C15: several requests in flight ------------------------------------------------------
